@@ -27,6 +27,7 @@ The first ten targets are listed in `Props/Translated/Basic.lean`; round 2 added
 | `Bitboard::{make, unmake, make_castle, unmake_castle}`, `get_active_and_passive_mut`, `PlayerState::{occupancy_ref, kings_ref, rooks_ref, pawns_ref}` | `Bitboard.make`, `.unmake`, `.make_castle` … (`MakeUnmake`) | `Board.makeF`, `unmakeF` (`make`, `unmake`) | `rs_make_eq`, `rs_unmake_eq`, `rs_make_move_eq`, `rs_unmake_move_eq`, `rs_make_castle_eq` (`MakeUnmake.lean`) |
 
 `Props/Translated/Generated.lean` discharges the panic hypotheses of `rs_make_eq`, `rs_unmake_eq`, `rs_zobrist_xor_eq` for every move
-the generator emits on a `WF.wf` board: `rs_make_generated`, `rs_unmake_generated`, `rs_zobrist_xor_generated`, `rs_is_valid_after_make`.
+the generator emits on a `WF.wf` board: `rs_make_generated`, `rs_unmake_generated`, `rs_zobrist_xor_generated`, `rs_is_valid_after_make`, and the end-to-end
+`rs_is_move_legal_generated` for `Bitboard::is_move_legal` (`make; is_valid; unmake`; generated module `Legal`).
 
 Mutation sanity check of all of these: `/verif/translator/mutation_check.sh`. -/
